@@ -496,6 +496,61 @@ func verifNarrow(out *verifkit.Trace, rng *rand.Rand, count int) {
 			}
 		}
 		target := func(k int) string { return fmt.Sprintf("https://t.example/d9%03d/%d", c, k) }
+		if c%4 == 3 {
+			/* a list with a child that is no item: it is shown as it stands and the link in its place is no link -
+			   at every width, also where the list has no room for its bullets */
+			stray := []string{fmt.Sprintf(`<a href="%s">L1</a>`, target(9)), fmt.Sprintf(`<b><a href="%s">L1</a></b>`, target(9)), fmt.Sprintf(`<p><a href="%s">L1</a></p>`, target(9))}[rng.Intn(3)]
+			doc := open + `<ul><li>L0</li>` + stray + `</ul>` + close + fmt.Sprintf(`<p><a href="%s">L2</a> <img src="%s" alt="L3"></p>`, target(2), target(3))
+			expect := []verifMark{{T: "tok", Id: "L0"}, {T: "tok", Id: "L1"}, {T: "tok", Id: "L2"}, {T: "lab", Target: target(2)}, {T: "tok", Id: "L3"}, {T: "lab", Target: target(3)}}
+			if !strings.HasPrefix(stray, `<a `) {
+				/* inside an element that is no item the link is a link like any other */
+				expect = []verifMark{{T: "tok", Id: "L0"}, {T: "tok", Id: "L1"}, {T: "lab", Target: target(9)}, {T: "tok", Id: "L2"}, {T: "lab", Target: target(2)}, {T: "tok", Id: "L3"}, {T: "lab", Target: target(3)}}
+			}
+			o, expect := verifPostObject(verifReal{markup: "html", media: "text/html", text: doc, expect: expect}, 0)
+			post, err := NewPostFromObject(o, nil)
+			if err != nil {
+				continue
+			}
+			labs := 0
+			for _, m := range expect {
+				if m.T == "lab" {
+					labs++
+				}
+			}
+			sel := []string{}
+			for k := -1; k <= labs+2; k++ {
+				link := "panic"
+				verifkit.Try(func() {
+					t, _, present := post.SelectLink(k)
+					link = t
+					if !present {
+						link = "none"
+					}
+				})
+				sel = append(sel, link)
+			}
+			for _, w := range []int{5, 6, 7, 8, 9, 10, 12, 16, 30, 80} {
+				var rendered string
+				p2, what2 := verifkit.Try(func() { rendered = post.String(w) })
+				marks, wanted := []verifMark{}, []verifMark{}
+				for _, m := range verifReadMarks(rendered) {
+					if m.T == "lab" {
+						marks = append(marks, m)
+					}
+				}
+				for _, m := range expect {
+					if m.T == "lab" {
+						wanted = append(wanted, m)
+					}
+				}
+				ev := verifkit.M{"ev": "links", "markup": "html", "w": w, "marks": marks, "expect": wanted, "sel": sel, "doc": verifkit.Clip(doc, 300), "panic": p2, "narrow": true}
+				if p2 {
+					ev["what"] = what2
+				}
+				out.Emit(ev)
+			}
+			continue
+		}
 		inner := []string{
 			fmt.Sprintf(`<iframe src="%s" title="L1"></iframe>`, target(1)),
 			fmt.Sprintf(`<img src="%s" alt="L1">`, target(1)),
